@@ -267,6 +267,72 @@ def o5(h, st):
         h.call(DM, "DMETProblemDecomposition.build", d2)
         e2 = h.call(DM, "DMETProblemDecomposition.simulate", d2)
         h.check("energy invariant under relabelling the atoms", abs(e - e2) < 1e-5, detail=f"{e} vs {e2}")
+        # the same fragments requested as (interleaved) index lists on a shuffled molecule
+        shuffle = [2, 0, 3, 1]                     # new position k holds original atom shuffle[k]
+        mol3 = SecondQuantizedMolecule([xyz[i] for i in shuffle], 0, 0, basis="minao")
+        pos, nested, k = {a: kk for kk, a in enumerate(shuffle)}, [], 0
+        for size in st["frags"]:
+            nested.append([pos[a] for a in range(k, k + size)])
+            k += size
+        opts3 = {"molecule": mol3, "fragment_atoms": nested, "fragment_solvers": st["solver"], "electron_localization": loc, "verbose": False}
+        d3 = h.call(DM, "DMETProblemDecomposition", opts3)
+        h.call(DM, "DMETProblemDecomposition.build", d3)
+        e3 = h.call(DM, "DMETProblemDecomposition.simulate", d3)
+        h.check("energy invariant under relabelling the atoms (fragments as index lists)", abs(e - e3) < 1e-5, detail=f"{e} vs {e3} with {nested}")
+    h.done()
+
+
+# O6 atom re-ordering for nested fragment lists --------------------------------------------------------------------------------------
+
+def o6_structures(tier):
+    """every ordered assignment of the atoms of a 3- / 4-atom molecule to fragments given as index lists (all permutations x all compositions), plus invalid lists"""
+    sts = []
+    for n in (3, 4):
+        perms = list(itertools.permutations(range(n)))
+        if tier == "quick":
+            perms = perms[::2] if n == 4 else perms
+        for perm in perms:
+            for cuts in itertools.product((0, 1), repeat=n - 1):
+                frags, cur = [], [perm[0]]
+                for k, cut in enumerate(cuts):
+                    if cut:
+                        frags.append(cur)
+                        cur = []
+                    cur.append(perm[k + 1])
+                frags.append(cur)
+                sts.append({"n": n, "frags": frags})
+    sts += [{"n": 4, "frags": [[0, 1], [2, 4]], "invalid": True}, {"n": 4, "frags": [[0, 1], [1, 2]], "invalid": True}, {"n": 4, "frags": [[0, 1], [2]], "invalid": True}]
+    return sts
+
+
+@contract("C15", "O6.dmet.nested_fragment_reordering", level="S", structures=o6_structures, targets=[(DM, "DMETProblemDecomposition.__init__")])
+def o6(h, st):
+    """fragment_atoms given as index lists: after construction the k-th fragment consists of exactly the requested atoms - the working molecule lists the atoms in the
+    order of the flattened index lists (same species and coordinates) and fragment_atoms holds the fragment sizes; ids out of range, repeated or not covering the
+    molecule raise RuntimeError; the caller's lists are unchanged"""
+    import numpy as np
+    from tangelo import SecondQuantizedMolecule
+    from tangelo.toolboxes.molecular_computation.integral_solver_pyscf import mol_to_pyscf
+    n = st["n"]
+    xyz = [("H", (0.0, 0.0, 0.0)), ("H", (0.1, 0.2, 0.8)), ("H", (1.3, 0.1, 1.0)), ("H", (1.5, -0.6, 2.1))][:n]
+    mol = SecondQuantizedMolecule(xyz, 0 if n % 2 == 0 else 1, 0, basis="minao")
+    ref = mol_to_pyscf(mol, mol.basis)._atom
+    frags = [list(f) for f in st["frags"]]
+    before = snapshot(frags)
+    opts = {"molecule": mol, "fragment_atoms": frags, "fragment_solvers": "fci", "verbose": False}
+    if st.get("invalid"):
+        e = h.raises(lambda: h.call(DM, "DMETProblemDecomposition", opts), RuntimeError)
+        h.check("inconsistent index lists are refused", e is not None)
+        h.done()
+        return
+    d = h.call(DM, "DMETProblemDecomposition", opts)
+    flat = [a for f in st["frags"] for a in f]
+    got = d.molecule._atom
+    h.check("fragment sizes", list(d.fragment_atoms) == [len(f) for f in st["frags"]], detail=str(d.fragment_atoms))
+    h.check("number of atoms", len(got) == n)
+    h.check("working molecule lists the atoms in the requested fragment order",
+            all(got[k][0] == ref[a][0] and np.allclose(got[k][1], ref[a][1], atol=1e-10) for k, a in enumerate(flat)), detail=f"{got} vs {[ref[a] for a in flat]}")
+    h.check("caller's index lists unchanged", snapshot(frags) == before)
     h.done()
 
 
